@@ -34,8 +34,8 @@ func TestC17HTTP(t *testing.T) {
 func runC17HTTP(r *Run, rng *Rng, poolSize int) {
 	env := NewLogEnv(r, rng.Fork("env"))
 	now := time.Now()
-	// read-only instant (limit + 7 days) lies 2.5 s in the future
-	env.NotAfterLimit = now.Add(3500 * time.Millisecond).Add(-ctlog.ReadOnlyAfter)
+	// read-only instant (limit + 7 days) lies 6 s in the future
+	env.NotAfterLimit = now.Add(6000 * time.Millisecond).Add(-ctlog.ReadOnlyAfter)
 	env.NotAfterStart = env.NotAfterLimit.Add(-400 * 24 * time.Hour)
 	env.PoolSize = poolSize
 	env.NoTruth = true
@@ -60,7 +60,7 @@ func runC17HTTP(r *Run, rng *Rng, poolSize int) {
 	ctx, cancel := context.WithCancel(context.Background())
 	defer cancel()
 	seqDone := make(chan error, 1)
-	go func() { seqDone <- li.Log.RunSequencer(ctx, 1500*time.Millisecond) }()
+	go func() { seqDone <- li.Log.RunSequencer(ctx, 2500*time.Millisecond) }()
 	h := li.Log.Handler()
 	type res struct {
 		code  int
@@ -152,6 +152,14 @@ func runC17HTTP(r *Run, rng *Rng, poolSize int) {
 	// 2. one more low-priority submission: rate limited at once
 	x := post(true, 2000)
 	r.DistinctKey(fmt.Sprintf("%d/low-into-full/%d", poolSize, x.code))
+	if x.code == 410 || time.Since(now) > 5600*time.Millisecond {
+		// the read-only instant (wall clock, 6 s after the start) overtook the
+		// scenario on a loaded machine: nothing to judge
+		r.Count("scenario_overtaken_by_readonly_instant", 1)
+		cancel()
+		wg.Wait()
+		return
+	}
 	if x.code != 503 || x.retry == "" {
 		env.violate("low-priority-into-full-pool-status", "low-priority submission into a full pool answered %d (Retry-After %q)", x.code, x.retry)
 	}
@@ -164,7 +172,12 @@ func runC17HTTP(r *Run, rng *Rng, poolSize int) {
 		time.Sleep(5 * time.Millisecond)
 	}
 	midRounds := r.Counter("lock_commits")
+	lateForReadOnly := time.Since(now) > 5600*time.Millisecond
 	wg.Wait()
+	if lateForReadOnly {
+		r.Count("scenario_overtaken_by_readonly_instant", 1)
+		return
+	}
 	if midRounds != roundsBefore {
 		// a tick rotated the pool in the middle of the scenario (loaded machine): not a verdict
 		r.Count("scenario_overtaken_by_tick", 1)
@@ -206,7 +219,7 @@ func runC17HTTP(r *Run, rng *Rng, poolSize int) {
 		env.violate("tree-size-after-eviction", "tree holds %v leaves after a round of a pool of %d with one eviction", sth, poolSize)
 	}
 	// 4. after the read-only instant: pending and new submissions get 410
-	time.Sleep(time.Until(now.Add(5200 * time.Millisecond)))
+	time.Sleep(time.Until(now.Add(7700 * time.Millisecond)))
 	select {
 	case err := <-seqDone:
 		var se ctlog.SunsetLogError
